@@ -7,16 +7,32 @@ From AV Require Export Model.Diff.
 (* what include_object is shown: the object itself (name and type_ are functions of it) *)
 Inductive obj := OTable (t:table) | OColumn (tn:N) (c:col) | OCons (tn:N) (k:cons) | OFk (tn:N) (f:fk).
 (* what include_name is shown: (name, type_, parent_names); also used to name an object *)
-Inductive nref := NSchema | NTable (t:N) | NColumn (t c:N) | NUq (t n:N) | NIx (t n:N) | NFk (t n:N).
+Inductive nref := NSchema | NTable (t:N) | NColumn (t c:N) | NUq (t n:N) | NIx (t n:N) | NFk (t n:N)
+                | NFkU (t:N).     (* an unnamed foreign key of table t: name None, type_ foreign_key_constraint, parent table t *)
 
 Definition kref (tn:N) (k:cons) : nref := if is_ix k then NIx tn (k_name k) else NUq tn (k_name k).
+Definition fkref (tn:N) (f:fk) : nref := if f_named f then NFk tn (f_name f) else NFkU tn.
+(* metadata_fks_by_name / conn_fks_by_name: only named keys are indexed; an unnamed key finds nothing *)
+Definition fk_by_name (f:fk) (fs:list fk) : option fk :=
+  if f_named f then kfind f_name (f_name f) (filter f_named fs) else None.
 Definition obj_ref (o:obj) : nref :=
   match o with OTable t => NTable (t_name t) | OColumn tn c => NColumn tn (c_name c) | OCons tn k => kref tn k
-             | OFk tn f => NFk tn (f_name f) end.
+             | OFk tn f => fkref tn f end.
 
+(* what the harness reads off the object a filter is handed, to pin that the real object (not a stub) is passed:
+   a table: its column names in order, then the number of its indexes and of its foreign keys;
+   a column: type family, nullability; an index / unique constraint: its columns; a foreign key: columns, referred table, referred columns *)
+Definition obj_digest (o:obj) : list N :=
+  match o with
+  | OTable t => keys c_name (t_cols t) ++ [N.of_nat (length (filter is_ix (t_cons t))); N.of_nat (length (t_fks t))]
+  | OColumn _ c => [ty_fam (c_ty c); (if c_null c then 1 else 0)%N]
+  | OCons _ k => k_cols k
+  | OFk _ f => f_cols f ++ f_rtable f :: f_rcols f
+  end.
 (* one filter invocation, as the harness can observe it: include_name(name,type_,parents) or
-   include_object(object, name, type_, reflected, compare_to) reduced to (type_+names, reflected, compare_to is not None) *)
-Inductive tcall := TN (r:nref) | TO (r:nref) (reflected:bool) (has_compare_to:bool).
+   include_object(object, name, type_, reflected, compare_to) reduced to (type_+names, reflected, compare_to is not None,
+   digest of the object, digest of compare_to) *)
+Inductive tcall := TN (r:nref) | TO (r:nref) (reflected:bool) (has_compare_to:bool) (dig cdig:list N).
 Definition has_cmp (c:option obj) : bool := match c with Some _ => true | None => false end.
 
 Section Filters.
@@ -83,18 +99,18 @@ Section Filters.
                            else obj_added_f tn supports_unique_constraints cod mk) metadata_cons.
 
   (* ------------------------------------------------------------ _compare_foreign_keys *)
-  Definition ffks (tn:N) (fs:list fk) : list fk := filter (fun f => iname (NFk tn (f_name f))) fs.
+  Definition ffks (tn:N) (fs:list fk) : list fk := filter (fun f => iname (fkref tn f)) fs.
   Definition compare_foreign_keys_f (tn:N) (conn_table metadata_table:option table) : list op :=
     match conn_table, metadata_table with
     | Some c, Some m =>
         let conn_fks := ffks tn (t_fks c) in
         (* _remove_fk(const, compare_to = the metadata key of the same name, if any) *)
         flat_map (fun cf => if existsb (fk_sig_eqb cf) (t_fks m) then []
-                            else if io (OFk tn cf) true (option_map (OFk tn) (kfind f_name (f_name cf) (t_fks m)))
-                                 then [OpDropFk tn (f_name cf)] else []) conn_fks
+                            else if io (OFk tn cf) true (option_map (OFk tn) (fk_by_name cf (t_fks m)))
+                                 then [OpDropFk tn (f_name cf) (f_named cf)] else []) conn_fks
         (* _add_fk(const, compare_to = the reflected key of the same name, if any) *)
         ++ flat_map (fun mf => if existsb (fk_sig_eqb mf) conn_fks then []
-                               else if io (OFk tn mf) false (option_map (OFk tn) (kfind f_name (f_name mf) conn_fks))
+                               else if io (OFk tn mf) false (option_map (OFk tn) (fk_by_name mf conn_fks))
                                     then [OpAddFk tn mf] else []) (t_fks m)
     | _, _ => []
     end.
@@ -124,7 +140,8 @@ Section Filters.
   Definition diff_f (g:cfg) (conn meta:schema) : list op := compare_tables_f g conn meta.
 
   (* ============================================================ the filter invocations, same skeleton *)
-  Definition tO (o:obj) (r:bool) (c:option obj) : tcall := TO (obj_ref o) r (has_cmp c).
+  Definition tO (o:obj) (r:bool) (c:option obj) : tcall :=
+    TO (obj_ref o) r (has_cmp c) (obj_digest o) (match c with Some x => obj_digest x | None => [] end).
 
   Definition calls_columns_pre (tn:N) (conn meta:table) : list tcall :=
     let ccols := fcols tn (t_cols conn) in
@@ -164,11 +181,11 @@ Section Filters.
 
   Definition calls_fks (tn:N) (c m:table) : list tcall :=
     let conn_fks := ffks tn (t_fks c) in
-    map (fun f => TN (NFk tn (f_name f))) (t_fks c)
+    map (fun f => TN (fkref tn f)) (t_fks c)
     ++ flat_map (fun cf => if existsb (fk_sig_eqb cf) (t_fks m) then []
-                           else [tO (OFk tn cf) true (option_map (OFk tn) (kfind f_name (f_name cf) (t_fks m)))]) conn_fks
+                           else [tO (OFk tn cf) true (option_map (OFk tn) (fk_by_name cf (t_fks m)))]) conn_fks
     ++ flat_map (fun mf => if existsb (fk_sig_eqb mf) conn_fks then []
-                           else [tO (OFk tn mf) false (option_map (OFk tn) (kfind f_name (f_name mf) conn_fks))]) (t_fks m).
+                           else [tO (OFk tn mf) false (option_map (OFk tn) (fk_by_name mf conn_fks))]) (t_fks m).
 
   Definition calls_f (conn0 meta:schema) : list tcall :=
     let conn := ftables conn0 in
